@@ -33,6 +33,11 @@ fn tree(name: &str) -> Files {
             f.insert("f".into(), X.to_vec());
             f.insert("z/h".into(), b"W-later-path".to_vec());
         }
+        "order" => {
+            // a directory next to a sibling whose name extends it with a byte below '/'
+            f.insert("lib/a".into(), X.to_vec());
+            f.insert("lib.txt".into(), Y.to_vec());
+        }
         "dotcopia" => {
             // top-level names that merely BEGIN with ".copia" are ordinary files
             f.insert(".copiaignore".into(), Y.to_vec());
@@ -124,7 +129,7 @@ fn post_ok(local: &Files, hub_before: &Files, hub_after: &Files, r: &RunRes) -> 
 }
 
 fn sequential_part(thorough: bool, evals: &AtomicU64, nontrivial: &AtomicU64) -> Vec<Violation> {
-    let locals = ["fX", "fY", "fX+dgZ", "empty", "dotcopia"];
+    let locals = ["fX", "fY", "fX+dgZ", "empty", "dotcopia", "order"];
     let hubs = ["empty", "hub-f", "hub-h"];
     let mut seqs: Vec<Vec<usize>> = Vec::new();
     let maxlen = if thorough { 3 } else { 2 };
@@ -145,7 +150,8 @@ fn sequential_part(thorough: bool, evals: &AtomicU64, nontrivial: &AtomicU64) ->
     jobs.par_iter()
         .filter_map(|(hb, ssh, seq)| {
             let sc = Scratch::new("c13s");
-            let hub = sc.path("hub");
+            // over SSH the root may itself contain a colon (host:root splits at the FIRST colon)
+            let hub = if *ssh { sc.path("hub:v2") } else { sc.path("hub") };
             write_tree(&hub, &tree(hb));
             let names: Vec<&str> = seq.iter().map(|&i| locals[i]).collect();
             for (step, &li) in seq.iter().enumerate() {
